@@ -4,7 +4,7 @@ CONSTANTS
   MaxOver1 = 2
   Cats2 = {12}
   MaxOver2 = 1
-  Time = {1}
+  Time = {1, 2}
   Locales = {"C"}
   EnvSizes = {0}
   PwdValues = {"real", "link"}
@@ -15,11 +15,11 @@ CONSTANTS
   ZeroMeansUnset = FALSE
   PrevFiles = {"none", "longer"}
   Truncates = TRUE
-  InputVariants = {"plain"}
-  TZs = {"UTC0"}
-  AslrBases = {1}
-  DateMacros = "undefined"
+  InputVariants = {"dated", "oddslot"}
+  TZs = {"UTC0", "XXX-13:30"}
+  AslrBases = {1, 2}
+  DateMacros = "clock"
   PrintsPointer = FALSE
-  TieBreak = "none"
+  TieBreak = "signature"
 INVARIANT OutputPure
 CHECK_DEADLOCK FALSE
